@@ -124,7 +124,8 @@ def gen_after_close(tier, seed):
         g.op("send %s send %s" % ([h for h, c in g.handles.items() if c == 1][0], hx(amqp.body(1, b"before")))); g.op("ev 1")
         return client_close(g)
 
-    return gen_after_exception(tier, seed + 1, closers=[client_close, client_close_behind_data, lambda g: mg.conn_close(320, "bye"), lambda g: mg.conn_close(200, "")], prefix="a")
+    return gen_after_exception(tier, seed + 1, closers=[client_close, client_close_behind_data, lambda g: mg.conn_close(320, "bye"), lambda g: mg.conn_close(200, ""),
+                                                            lambda g: mg.conn_close(540, "NOT_IMPLEMENTED - prefetch_size!=0 (1)", cls=60, mid=10)], prefix="a")
 
 
 def gen_api_after_close(tier, seed):
